@@ -12,7 +12,8 @@ HARNESS = A.HARNESS
 RULE = ('a case = one container argument "-l/--list" bound to a destination of one of 18 kinds (vector deque list '
         'queue forward_list stack set multiset unordered_set unordered_multiset priority_queue T[4] std::array<T,4> '
         'vector<string> tuple<int,string,int> bitset<16> vector<bool> map<string,int>) x a subset of the options '
-        '{separator, clear, sort, unique / unique-or-refuse, multi-value} (+ check / format / initial content) x a flat '
+        '{separator, clear, sort, unique / unique-or-refuse, multi-value} (+ check / general format / position formats '
+        '"fmtpos=<idx>~<upper|lower>" = addFormatPos / initial content) x a flat '
         'token sequence with duplicates x a cut of that sequence into 1..3 uses (optionally with empty uses and empty '
         'elements ",,"), later uses spelled as "-l v", "--list v" or as free values; optionally a second argument, the '
         'boolean flag "-f/--flag", used at any position between the uses. Non-trivial: the configuration is '
@@ -33,13 +34,21 @@ ASSUMPTIONS = [
     'accepted option combination; content (placement), unique-drop and unique-refuse for the 11 ContainerAdapter kinds '
     'over int and for vector<string> (formats before the unique test); unique-drop for T[N]/std::array; positions for '
     'vector<bool>; map<string,int>: pair format, first value for a key wins / existing keys keep their value, refusal '
-    'of duplicate keys; overflow refusal for arrays, tuple, bitset; free values: multi-value routing, a flag ends the '
+    'of duplicate keys; overflow refusal for arrays, tuple, bitset; position formats: tuple element k = k-th value '
+    'given with the formats of position k, vector<string> element i at position |earlier content| + i, array slots, '
+    'the format table of internAddFormat and its range rule, who accepts addFormat / addFormatPos; unique-drop on '
+    'vector<string> with position formats only as NoDup + fold (a dropped duplicate shifts the positions); '
+    'free values: multi-value routing, a flag ends the '
     'value list. The setters\' accept/refuse table is a theorem about the model (setup_ok) and tied to the code by '
     'one case per refused option subset',
     'a use without elements (empty word, separators only) still counts for a cardinality: the fold theorems assume no '
     'cardinality (the default of containers) or no such use; the oracle does not judge tuple cases with such uses',
     'not in the slot pool of the harness, hence not covered: DynamicBitset destinations, multimap / unordered_map, '
-    'pair formats other than "k,v", position formats (addFormatPos), unsetFlag on bit sets',
+    'pair formats other than "k,v", addFormatKey / addFormatValue of key-value destinations, unsetFlag on bit sets',
+    'position formats: addFormatPos( idx) with idx >= -1 (idx < -1 indexes mFormats in front of its start: model '
+    'Fault, never generated); formatters are uppercase / lowercase, which are invisible on the int destinations '
+    '(theorem C06_formats_invisible_on_int), so their placement is observable on vector<string> and the string '
+    'element of the tuple only',
     'vector<bool>: positions below 2^40 (pos * 1.5 is computed in double)',
 ]
 
@@ -878,7 +887,10 @@ CLAIM = {
             'content is discarded exactly once (cont_clear_once); sorting yields ascending order; checks reach every '
             'element; unique data drops resp. refuses duplicates (int containers, vector<string> after formatting, map '
             'keys); arrays, tuple and bitset refuse what they cannot hold; a free value after another argument (a '
-            'flag) never reaches the container (cont_flag_ends_value_list). Two defects of the pinned tree are proved on the pinned element steps (unique test of arrays on '
+            'flag) never reaches the container (cont_flag_ends_value_list); position formats (addFormatPos) follow the '
+            'element that is filled - tuple element k gets the formats of position k, a vector<string> element the '
+            'formats of the position it lands at - independent of the cut (cont_tuple_elements, cont_strs_content). '
+            'Two defects of the pinned tree are proved on the pinned element steps (unique test of arrays on '
             'unfilled slots, vector<bool> of size 1 loses position 1) and repaired by fixes/C06-1, C06-2. The model is '
             'tied to the code by a correspondence check through the real Handler (all kinds x all option subsets x cuts).',
     'note': 'trusted: Coq kernel, extraction (ExtrOcamlBasic), the hand-written model (validated by correspondence on '
